@@ -117,6 +117,14 @@ v('C11', 'fire', 'filters.py', '    T = error_model.transform_to_output(trajecto
 v('C14', 'fire', 'inertial_sensor.py', '                if actual != nominal:', '                if not np.isclose(actual, nominal):', 'seeded C14 round 4: table column dropped for a parameter within isclose tolerance of nominal')
 v('C14', 'silent', 'inertial_sensor.py', '                if actual != nominal:', '                if not actual == nominal:', 'same exact test, other spelling')
 v('C14', 'silent', 'inertial_sensor.py', '                if actual != nominal:', '                if actual - nominal != 0:', 'same exact test on the deviation')
+SM_ = 'sim.py'
+v('C06', 'fire', SM_, 'velocity_b = util.mv_prod(mat_nb, trajectory[VEL_COLS], at=True) + error', 'velocity_b = util.mv_prod(mat_nb, trajectory[VEL_COLS]) + error', 'body-velocity simulator projects with C instead of C^T')
+v('C06', 'fire', SM_, 'lla = transform.perturb_lla(trajectory[LLA_COLS], error)', 'lla = transform.perturb_lla(trajectory[VEL_COLS], error)', 'survey: position simulator perturbs the velocity columns')
+v('C06', 'fire', SM_, 'velocity_n = trajectory[VEL_COLS] + error', 'velocity_n = trajectory[LLA_COLS] + error', 'survey: velocity simulator reads the position columns')
+v('C06', 'fire', SM_, 'velocity_n = trajectory[VEL_COLS] + error', 'velocity_n = trajectory[VEL_COLS] + error[:, [0, 0, 2]]', 'correlated error components')
+v('C06', 'silent', SM_, 'velocity_n = trajectory[VEL_COLS] + error', 'velocity_n = trajectory[VEL_COLS] - error', 'sign of a zero-mean random error: not observable')
+v('C06', 'silent', SM_, 'velocity_n = trajectory[VEL_COLS] + error', 'velocity_n = error + trajectory[VEL_COLS]')
+v('C03', 'fire', SM_, '            lat = lat_new', '            lon = lat_new', 'survey: latitude iterate never handed on')
 IS = 'inertial_sensor.py'
 v('C14 C12', 'fire', IS, 'P[n_states, n_states] = bias_sd[axis] ** 2', 'P[n_states, n_states] = bias_sd[axis] ** 3', 'survey: initial covariance is not the squared sd')
 v('C14', 'fire', IS, 'G[n_states, n_noises] = 1', 'G[n_states, n_noises] = 2', 'survey: noise input gain')
